@@ -280,6 +280,10 @@ def nocallback(run, E, reach, cuts):
         run.held('NOCALLBACK', 'Face::Table constructors', '', 'borrowed only in %s' % sorted(callers), False)
 
 
+# the one tabled exception, present only in builds with tracing compiled in (the IR-level NOGLOBAL tables the same object, rules/eff.py)
+NOGLOBAL_OK = {'global_log': 'the process-wide json logger of gr_start_logging(NULL, ..): logging is excluded from the thread contract by the documentation'}
+
+
 def noglobal_ast(run, fx):
     """NOGLOBAL on the declarations themselves, for the code the linked IR of this configuration does not contain (the other VM driver is
     parsed but not linked): no variable at namespace scope or static data member in src/ is mutable.  A file-scope `exit_status` in
@@ -291,7 +295,7 @@ def noglobal_ast(run, fx):
             continue
         seen.add((v['q'], v['file'], v.get('ln')))
         n += 1
-        if not v.get('const'):
+        if not v.get('const') and not (v['q'].split('::')[-1] in NOGLOBAL_OK and 'json' in (v.get('t') or '')):
             bad.append(v)
     inst = 'no mutable namespace-scope variable in src/'
     if n < 30:
